@@ -603,13 +603,13 @@ def lspStep (st : DState) (op : String) (f : List Text) : Option (DState × Stri
   | "ml.now", [t] => some ({ st with srv := { st.srv with now := intOfText t } }, "ok")
   | "ml.init", regs =>
     let (s2, msgs) := ConfigM.startUp st.srv st.answer regs
-    some ({ st with srv := s2 }, outLine ("cfgreq" :: msgs.map msgStr) s2)
+    some ({ st with srv := s2 }, outLine ("cfgreq" :: msgs.map (fun m => msgStr (Server.wire s2 m))) s2)
   | "ml.edit", uri :: npk :: rest =>
     let (pkgs, more) := parsePkgs (natOfText npk) rest
     -- an optional last field: the document text (needed by code actions only)
     let content : Text := match more with | [c] => c | _ => []
     let (s', msgs) := Server.edit st.srv uri pkgs content
-    some ({ st with srv := s' }, outLine (msgs.map msgStr) s')
+    some ({ st with srv := s' }, outLine (msgs.map (fun m => msgStr (Server.wire s' m))) s')
   | "ml.close", [uri] => let s' := Server.close st.srv uri; some ({ st with srv := s' }, outLine [] s')
   | "ml.action", [uri, line, ch] =>
     let r := match Server.codeAction st.srv uri (natOfText line) (natOfText ch) with
@@ -627,7 +627,7 @@ def lspStep (st : DState) (op : String) (f : List Text) : Option (DState × Stri
       | _ => .invalid
     if (st.srv.tasks.any fun t => t.reg == reg && t.waiting.contains name) then
       let (s', msgs) := Server.reply st.srv reg name o
-      some ({ st with srv := s' }, outLine (msgs.map msgStr) s')
+      some ({ st with srv := s' }, outLine (msgs.map (fun m => msgStr (Server.wire s' m))) s')
     else some (st, "noparked")
   | "ml.settle", [] => some (st, outLine [] st.srv)
   | "ml.dump", [] => some (st, dumpDb st.srv.db)
